@@ -142,7 +142,7 @@ fn shrink_common(j: &J) -> Vec<J> {
         l.cliff = None;
         out.push(scen(&ps, &l, &cfg));
     }
-    if ls.kind != "plateau" && ls.kind != "staircase" {
+    if ls.kind != "plateau" && ls.kind != "staircase" && ls.kind != "script" {
         let mut l = ls.clone();
         l.kind = "plateau".into();
         out.push(scen(&ps, &l, &cfg));
@@ -271,6 +271,9 @@ pub fn c06_verdict(run: &E1Run, tr: &Trace, out: &mut RunOut) {
             out.violate(Violation::new("basis-readout-differs", run.obs.len() as u64, "generate_basis() of the returned object reads other values than its score() does"));
         }
     }
+    if run.land.is_script() {
+        return;
+    }
     if let (Some(r), Some(sc)) = (&run.ret, &run.ret_score) {
         let v: Vec<f64> = r.iter().map(|b| f64::from_bits(*b)).collect();
         let want = run.land.eval(&v);
@@ -295,7 +298,7 @@ impl Check for C06 {
     }
     fn generate(&self, rng: &mut Rng, tier: Tier, _i: u64) -> J {
         let ps = gen_params(rng, &[(1, 2), (2, 3), (3, 3), (6, 3), (64, 1)]);
-        let ls = gen_land_general(rng);
+        let ls = gen_land_general(rng, true);
         let mut cfg = gen_cfg(rng, tier, false);
         cap_for_n(&ps, &mut cfg);
         scen(&ps, &ls, &cfg)
@@ -389,7 +392,7 @@ impl Check for C19 {
     }
     fn generate(&self, rng: &mut Rng, tier: Tier, _i: u64) -> J {
         let ps = gen_params(rng, &[(1, 1), (2, 3), (3, 3), (6, 3), (64, 2)]);
-        let mut ls = gen_land_general(rng);
+        let mut ls = gen_land_general(rng, true);
         match rng.below(5) {
             0 => {
                 ls = LandSpec::simple("plateau", 1);
@@ -478,7 +481,7 @@ pub fn c05_verdict(run: &E1Run, tr: &Trace, out: &mut RunOut) {
 
 pub fn gen_c05_e1(rng: &mut Rng, tier: Tier) -> J {
     let ps = gen_params(rng, &[(1, 1), (2, 3), (3, 3), (6, 3), (64, 1)]);
-    let ls = gen_land_general(rng);
+    let ls = gen_land_general(rng, false);
     let mut cfg = gen_cfg(rng, tier, true);
     // cross kt_finish / kt_ratio explicitly
     let (f, r) = *rng.pick(&[
@@ -489,6 +492,7 @@ pub fn gen_c05_e1(rng: &mut Rng, tier: Tier) -> J {
         (None, Some(0.0)),
         (None, Some(0.1)),
         (None, Some(1.0)),
+        (None, Some(1.5)),
         (Some(1e-3), Some(0.1)),
     ]);
     cfg.kt_finish = f;
